@@ -26,6 +26,7 @@ type SnapDriver struct {
 	maxEpochs  int
 	maxResizes int
 	node       *Account
+	node1      *Account
 }
 
 func NewSnapDriver(counts []int, maxEpochs, maxResizes int) *SnapDriver {
@@ -38,6 +39,7 @@ func (d *SnapDriver) Build() *World {
 	dn := w.Deploy("netmap", CompileDir(Repo, "netmap"), []any{false, util.Uint160{}, util.Uint160{}, []any{}, []any{}})
 	w.RegisterNNS("netmap", dn.Hash)
 	d.node = w.Acct("node0")
+	d.node1 = w.Acct("node1") // present in the maps of odd epochs only
 	w.Freeze()
 	return w
 }
@@ -69,6 +71,11 @@ func (d *SnapDriver) blob(e int) []byte {
 	return append(b, byte(e), byte(e>>8), 0xEE)
 }
 
+func (d *SnapDriver) blob1(e int) []byte {
+	b := append([]byte{0, 0}, d.node1.Pub()...)
+	return append(b, byte(e), byte(e>>8), 0xDD)
+}
+
 func (d *SnapDriver) Step(x *Exec, n *Node, i int) StepResult {
 	w := x.W
 	m := n.M.(*snapModel)
@@ -92,6 +99,21 @@ func (d *SnapDriver) Step(x *Exec, n *Node, i int) StepResult {
 		o2, n2 := x.Do(n1, Call{Script: Script(h, "addNode", n2a), Signers: []util.Uint160{w.Alpha, d.node.Hash}, Label: "addNode"})
 		if !o2.Halt {
 			hpanic("C08 setup addNode: %s", o2.Fault)
+		}
+		// the second node joins for odd epochs and leaves for even ones (maps of one and of two nodes alternate)
+		if e%2 == 1 {
+			for _, c := range []Call{{Script: Script(h, "addPeerIR", d.blob1(e)), Signers: A, Label: "addPeerIR(node1)"},
+				{Script: Script(h, "addNode", []any{[]any{fmt.Sprintf("f%d", e)}, stackitem.NewMap(), d.node1.Pub(), int64(1)}), Signers: []util.Uint160{w.Alpha, d.node1.Hash}, Label: "addNode(node1)"}} {
+				var oo Obs
+				if oo, n2 = x.Do(n2, c); !oo.Halt {
+					hpanic("C08 setup %s: %s", c.Label, oo.Fault)
+				}
+			}
+		} else if e > 1 {
+			var oo Obs
+			if oo, n2 = x.Do(n2, Call{Script: Script(h, "updateStateIR", int64(2), d.node1.Pub()), Signers: A, Label: "node1 goes offline"}); !oo.Halt {
+				hpanic("C08 setup node1 offline: %s", oo.Fault)
+			}
 		}
 		o3, n3 := x.Do(n2, Call{Script: Script(h, "newEpoch", int64(e)), Signers: A, Label: fmt.Sprintf("newEpoch(%d)", e)})
 		if !o3.Halt {
@@ -139,8 +161,30 @@ func (d *SnapDriver) Step(x *Exec, n *Node, i int) StepResult {
 		}
 	}
 	// ---- read API vs model ----
-	legacy := func(e int) any {
-		return []any{[]any{NX(d.blob(e)), "i1"}}
+	// maps are compared as sets of entries (the order follows the keys, which is not part of the statement)
+	asSet := func(v any) string {
+		l, _ := v.([]any)
+		var ss []string
+		for _, e := range l {
+			ss = append(ss, fmt.Sprint(e))
+		}
+		sort.Strings(ss)
+		return fmt.Sprint(ss)
+	}
+	legacyL := func(e int) []any {
+		l := []any{[]any{NX(d.blob(e)), "i1"}}
+		if e%2 == 1 {
+			l = append(l, []any{NX(d.blob1(e)), "i1"})
+		}
+		return l
+	}
+	legacy := func(e int) any { return asSet(legacyL(e)) }
+	v2 := func(e int) string {
+		l := []any{[]any{[]any{NXs(fmt.Sprintf("e%d", e))}, []any{"map"}, NX(d.node.Pub()), "i1"}}
+		if e%2 == 1 {
+			l = append(l, []any{[]any{NXs(fmt.Sprintf("f%d", e))}, []any{"map"}, NX(d.node1.Pub()), "i1"})
+		}
+		return asSet(l)
 	}
 	empty := func(v any) bool { a, ok := v.([]any); return ok && len(a) == 0 }
 	rd := func(method string, args ...any) Obs { return w.Read(cur.L, cur.H, cur.TS, h, method, args...) }
@@ -153,7 +197,7 @@ func (d *SnapDriver) Step(x *Exec, n *Node, i int) StepResult {
 				return StepResult{V: Viol("snapshot-out-of-range-answered", fmt.Sprintf("snapshot(%d) with count %d returned %v", dd, nm.n, r.Stack), where)}
 			}
 		case dd < nm.keep:
-			if !r.Halt || !Same(r.Ret0(), legacy(nm.cur-dd)) {
+			if !r.Halt || asSet(r.Ret0()) != legacy(nm.cur-dd) {
 				return StepResult{V: Viol("snapshot-wrong", fmt.Sprintf("cur=%d snapshot(%d) = %v (fault %q), want map of epoch %d", nm.cur, dd, r.Stack, r.Fault, nm.cur-dd), where)}
 			}
 		default:
@@ -163,7 +207,7 @@ func (d *SnapDriver) Step(x *Exec, n *Node, i int) StepResult {
 		}
 	}
 	if nm.keep > 0 {
-		if r := rd("netmap"); !Same(r.Ret0(), legacy(nm.cur)) {
+		if r := rd("netmap"); asSet(r.Ret0()) != legacy(nm.cur) {
 			return viol("netmap-not-newest", fmt.Sprintf("netmap() = %v want map of epoch %d", r.Stack, nm.cur))
 		}
 	}
@@ -175,7 +219,7 @@ func (d *SnapDriver) Step(x *Exec, n *Node, i int) StepResult {
 		live := e > nm.cur-nm.keep && e <= nm.cur && e >= 1
 		se := rd("snapshotByEpoch", int64(e))
 		if live {
-			if !Same(se.Ret0(), legacy(e)) {
+			if asSet(se.Ret0()) != legacy(e) {
 				return StepResult{V: Viol("snapshotByEpoch-wrong", fmt.Sprintf("cur=%d snapshotByEpoch(%d) = %v (fault %q)", nm.cur, e, se.Stack, se.Fault), where)}
 			}
 		} else if se.Halt && !empty(se.Ret0()) {
@@ -190,8 +234,8 @@ func (d *SnapDriver) Step(x *Exec, n *Node, i int) StepResult {
 		}
 		got, _ := r.Ret0().([]any)
 		if live {
-			want := []any{[]any{[]any{NXs(fmt.Sprintf("e%d", e))}, []any{"map"}, NX(d.node.Pub()), "i1"}}
-			if !Same(got, want) {
+			want := v2(e)
+			if asSet(got) != want {
 				return StepResult{V: Viol("listNodes-wrong", fmt.Sprintf("cur=%d listNodes(%d) = %v want %v", nm.cur, e, got, want), where)}
 			}
 		} else if len(got) != 0 {
